@@ -502,6 +502,14 @@ def _witness(solver, p, lt_, rt_):
     if not close(a, b, 1e-6):
         return 'proved sides differ numerically at the witness: %r %r' % (
             a, b)
+    # the canonical forms used by stage 1 must have the same values
+    ca, cb = solver.canon_values(p.conds, [lt_, rt_], env, ufs)
+    if ca is not None and not close(ca, a, 1e-6):
+        return 'canonical form of lhs evaluates to %r, the term to %r' % (
+            ca, a)
+    if cb is not None and not close(cb, b, 1e-6):
+        return 'canonical form of rhs evaluates to %r, the term to %r' % (
+            cb, b)
     return True
 
 
